@@ -1114,11 +1114,40 @@ void case_random(Args const& a, std::uint64_t c)
 		Slot s; s.kind = Kind(rng.choose(3)); s.node = rng.choose(w.nut);
 		w.slots.push_back(std::move(s));
 	}
+	// one history in ten starts with a connection attempt that waits at an acceptor which then gives its endpoint up
+	// and takes another one (the attempt must never be accepted under the new binding)
+	bool const scripted = rng.coin(1, 10);
+	if (scripted) { w.slots[0].kind = K_ACC; w.slots[1].kind = K_TCP; w.slots[1].node = w.slots[0].node; }
 	// make collisions possible: at least two slots share a protocol
 	if (w.slots[0].proto() != w.slots[1].proto() && nslots == 2) w.slots[1].kind = w.slots[0].kind == K_UDP ? K_UDP : K_ACC;
 	for (int i = 0; i < nslots; ++i) w.tr(fmt("s%d=%s@n%d", i, kind_names[w.slots[std::size_t(i)].kind], w.slots[std::size_t(i)].node));
 	for (auto const& n : w.nodes) { std::string s = "n{"; for (auto const& i : n.ips) s += i.to_string() + " "; w.tr(s + "}"); }
 
+	if (scripted)
+	{
+		Node const& n = w.nodes[std::size_t(w.slots[0].node)];
+		bool const v4 = w.has_family(n, true) && (!w.has_family(n, false) || rng.coin());
+		ip::address const own = w.first_of(n, v4);
+		w.op_create(0); w.op_open(0, v4); w.op_bind(0, own, rng.pick(w.ports));
+		if (!w.failed && w.slots[0].bound) w.op_listen(0);
+		w.op_create(1);
+		if (rng.coin()) w.op_open(1, v4);
+		if (!w.failed && w.slots[0].bound) w.op_connect(1, w.slots[0].addr, w.slots[0].port, 2);
+		if (!w.failed)
+		{
+			switch (rng.choose(3))
+			{
+				case 0: w.op_close(0, true); w.op_open(0, v4); break;
+				case 1: w.op_close(0, false); w.op_open(0, v4); break;
+				default: w.op_open(0, v4); break; // re-open
+			}
+		}
+		if (!w.failed) w.op_bind(0, rng.coin() ? own : (v4 ? ip::address(ip::address_v4::any()) : ip::address(ip::address_v6::any())), rng.coin() ? 0 : rng.pick(w.ports));
+		if (!w.failed && w.slots[0].bound) w.op_listen(0);
+		if (!w.failed) w.check_all("scripted prefix");
+		w.step_no += 8;
+		R().count("histories_with_attempt_waiting_at_rebound_acceptor");
+	}
 	int const steps = 4 + rng.choose(rng.coin(1, 4) ? 60 : 20);
 	int since_probe = 0;
 	for (int st = 0; st < steps && !w.failed; ++st)
